@@ -148,7 +148,7 @@ package main
 // Everything the command sets up afterwards (resolver, TLS, prometheus, the Attacker's options) is
 // over-approximated (pragma unknowncalls havoc): the guard must hold whatever that code does.
 //@ func attack
-//@   property C19
+//@   property C19 C02
 //@   pragma unknowncalls havoc
 //@   pragma obligations contract
 //@   pragma frame off
